@@ -81,6 +81,17 @@ def history_programs():
     # non-ASCII content, modified at a multi-byte character
     out.append('stel s = "aéb"; s[1] = "日"; [s == "a日b", "a日b" == s, lengte(s), s != "a日b"]')
     out.append('stel s = "a日b"; s[1] = "é"; stel t = "aéb"; [s == t, t == s, s < "aéc"]')
+    # the two zeros are different floats (distinct bit patterns, distinct observable sign) however they are written and wherever
+    # else in the program the other one occurs (a constant pool that shares "equal" literals must not merge them)
+    zobs = "[1.0 / z, string(z), z == 0.0, z < 0.0]"
+    for pre in ["", "0.0;", "-0.0;", "stel p = 0.0; stel q = -0.0;", "stel q = -0.0; stel p = 0.0;", "functie g() { -0.0 }; functie h() { 0.0 };"]:
+        for zs in ["0.0", "-0.0", "0.0 * (0.0 - 1.0)", "-(0.0)"]:
+            out.append("%s stel z = %s; %s" % (pre, zs, zobs))
+    out += ["[0.0, -0.0, 0.0, -0.0]", "[string(0.0), string(-0.0)]", "[1.0 / 0.0 > 1.0 / -0.0, 1.0 / -0.0 < 0.0]", "[-0.0, 0.0]", "-1.5; 1.5; [-1.5, 1.5, -1.5 == 0.0 - 1.5]",
+            "stel a = -2.5; stel b = 2.5; [a, b, a + b, string(a)]"]
+    # the same value compared with itself
+    from .. import enum as _enum
+    out += _enum.same_object_programs()
     # floats and integers: computed vs written
     out += ["[0.5 + 0.25 == 0.75, 0.75 == 0.5 + 0.25, 1.5 * 2.0 == 3.0, 6 * 7 == 42, 42 == 6 * 7, 0.0 == 0.0 * (0.0 - 1.0)]",
             "stel a = [1.5]; a[0] = a[0] + 1.0; [a[0] == 2.5, 2.5 == a[0]]"]
